@@ -15,17 +15,18 @@ import (
 // scripted byte sequence in scripted chunk sizes, then either reports EOF (the client closed)
 // or stays open until the server closes it; everything the server writes is recorded.
 type c02End struct {
-	mu      sync.Mutex
-	data    []byte // what this end sends into the tunnel
-	cuts    []int  // chunk sizes of successive reads
-	pos, ci int
-	eof     bool // closes after its data (Read returns EOF) instead of waiting
-	failAt  int  // Write accepts this many bytes in total, then fails (-1: never)
-	got     []byte
-	closed  chan struct{}
-	isClosed bool
-	closeN  int
-	readErr bool // the server saw a read error / EOF from this end
+	mu          sync.Mutex
+	data        []byte // what this end sends into the tunnel
+	cuts        []int  // chunk sizes of successive reads
+	pos, ci     int
+	eof         bool // closes after its data (Read returns EOF) instead of waiting
+	eofWithData bool // ... and the EOF comes together with the last chunk
+	failAt      int  // Write accepts this many bytes in total, then fails (-1: never)
+	got         []byte
+	closed      chan struct{}
+	isClosed    bool
+	closeN      int
+	readErr     bool // the server saw a read error / EOF from this end
 }
 
 func newC02End(data []byte, cuts []int, eof bool, failAt int) *c02End {
@@ -49,6 +50,11 @@ func (c *c02End) Read(p []byte) (int, error) {
 		}
 		copy(p, c.data[c.pos:c.pos+k])
 		c.pos += k
+		if c.eof && c.eofWithData && c.pos == len(c.data) {
+			c.readErr = true
+			c.mu.Unlock()
+			return k, io.EOF
+		}
 		c.mu.Unlock()
 		return k, nil
 	}
@@ -155,6 +161,10 @@ func Harness_C02_pipe() {
 	}
 	src := newC02End(dS, cS, ender == 0, -1)
 	dst := newC02End(dT, cT, ender == 1, failAt)
+	if ender == 0 || ender == 1 {
+		w := verif_Bool()
+		src.eofWithData, dst.eofWithData = w, w
+	}
 
 	b := NewBridge(ctx, &BridgeConfig{TunnelID: "tun-1", MappingID: "pm1", SourceConn: src, BandwidthLimit: limit})
 	b.SetTargetConnection(c02TunnelConn{dst})
